@@ -343,9 +343,11 @@ def from_trusted_statement : Prop :=
 
 /-- **C10 (trusted construction), proved part**: on constructor-valid keyword arguments that are
     already in stored form (`storedKw`: the explicit normalisation side condition — no Float ← int,
-    Boolean ← 'True'/'False', Enum ← member name, StructureReference ← dict, rebuilt Set / Map /
-    positional collection, omitted default, undeclared keyword) `from_trusted_data(mapping)` yields
-    an instance equal to the validated one -/
+    Boolean ← 'True'/'False', Enum ← member name, StructureReference ← dict, omitted default,
+    undeclared keyword; a Set / Map / positional collection the constructor rebuilds is given as a
+    set / frozenset of the field's mutability, a dict with pairwise different string keys, a
+    tuple / list of stored-form elements) `from_trusted_data(mapping)` yields an instance equal to
+    the validated one -/
 theorem from_trusted_equiv_partial (O : Oracles) (cls : FieldDecl) (kw : List (String × PyVal))
     (x : PyVal) (hs : storedKw cls kw = true) (hc : construct O cls kw = .ok x) :
     ∃ y, fromTrustedMap cls kw = .ok y ∧ eqv x y = true := by
@@ -397,6 +399,23 @@ theorem from_trusted_statement_false : ¬ from_trusted_statement := by
 theorem from_trusted_example :
     storedKw exOuter [("kind", .enumv "Color" "RED"), ("items", .list []), ("flags", .list [.bool false])] = true
     ∧ isOk (construct exO exOuter [("kind", .enumv "Color" "RED"), ("items", .list []), ("flags", .list [.bool false])]) = true := by
+  decide
+
+/-- collections the constructor rebuilds, given in stored form, are inside the region: a Set and an
+    ImmutableSet, a fixed-length Tuple, a positional Array with a surplus element, a Map -/
+def cxRebuilt : FieldDecl :=
+  mkCls "A" ["s"] [("s", .setOf false (.integer {}) {}), ("f", .setOf true str0 {}), ("t", .tuplePos [.integer {}, str0] false),
+                   ("p", .seqPos .list [.integer {}] true {}), ("m", .mapOf str0 (.float {}) {})]
+def cxRebuiltKw : List (String × PyVal) :=
+  [("s", .set false [.int 1, .int 2]), ("f", .set true [.str "a"]), ("t", .tuple [.int 1, .str "x"]),
+   ("p", .list [.int 1, .str "surplus"]), ("m", .dict [(.str "k", .float ⟨1, 2⟩)])]
+theorem from_trusted_rebuilt_example :
+    storedKw cxRebuilt cxRebuiltKw = true ∧ isOk (construct exO cxRebuilt cxRebuiltKw) = true
+    ∧ storedKw cxRebuilt [("s", .set true [.int 1])] = true               -- a frozenset for a mutable Set: stays frozen
+    ∧ storedKw cxRebuilt [("s", .set false [.int 1]), ("f", .set false [.str "a"])] = false   -- a plain set for an ImmutableSet
+    ∧ (match construct exO cxRebuilt cxRebuiltKw, fromTrustedMap cxRebuilt cxRebuiltKw with
+        | .ok x, .ok y => eqv x y
+        | _, _ => false) = true := by
   decide
 
 /-! ## 3. fast serialization -/
